@@ -285,6 +285,12 @@ class Repo:
             return ('ext', dotted_name)
         if len(parts) == 1:
             return ('module', self.modules['__init__'])
+        # a from-import in __init__ rebinds the package attribute (lentil.ptype
+        # is the function, not the sub-module)
+        ftgt = self.facade.get(parts[1]) if hasattr(self, 'facade') else None
+        if ftgt and ftgt not in (dotted_name, f'{self.PKG}.{parts[1]}') and ftgt.startswith(self.PKG + '.') \
+                and not ftgt.startswith('lentil.__init__.'):
+            return self.resolve_dotted('.'.join([ftgt] + parts[2:]))
         # lentil.<module>...
         if parts[1] in self.modules and parts[1] != '__init__':
             m = self.modules[parts[1]]
